@@ -196,6 +196,13 @@ def c08():
         if 4 <= sum(len(j) for j in inst) <= 7:
             insts.append(inst)
     insts = [x for x in insts if sum(len(j) for j in x) <= 8]
+    # durations in fine-grained time units (tens of millions): end times that a 32-bit float cannot tell apart
+    big = []
+    for src in rng.sample(insts, min(len(insts), _n(chk, 150, 750))):
+        B = 2 ** 26
+        big.append([[{"ms": list(op["ms"]), "d": B * rng.choice([1, 1, 2]) + op["d"] * rng.choice([1, 1, 3])} for op in job]
+                    for job in src])
+    insts += big
     from concurrent.futures import ProcessPoolExecutor
     with ProcessPoolExecutor(max_workers=12) as ex:
         traces = list(ex.map(_c08_trace, list(enumerate(insts)), chunksize=16))
